@@ -170,6 +170,11 @@ def judge(ctx, case, method, cv_costs, disps, tm, subpix, d_before, m_before, d_
                 continue
             # refined pixel
             xs, ys = fit(method, float(cm), float(c0), float(cp), tm)
+            if max(abs(float(cm) - float(c0)), abs(float(cp) - float(c0))) < 1e-12 * max(1.0, abs(float(c0))):
+                # a triple that is flat up to rounding noise (slopes of the order of 1e-16): the fit is ill-conditioned, the
+                # statement's closed form and "stay on the sample" are both acceptable; judged by the bounds above only
+                ctx.count("numerically_flat_triples_not_judged")
+                continue
             if got_b3 and not (mb & B3):
                 ctx.violation("bit3-on-refinable-pixel",
                               f"pixel ({y},{x}) costs ({cm},{c0},{cp}) [{tm}] got bit 3 although interior, finite and extremal",
